@@ -72,6 +72,10 @@ def listTree (occ : Option Occur) (o : Opd) (more : List PItem) : Ast CLeaf :=
   | .ok t => t
   | .error _ => Ast.emptyQuery
 
+/-- the items `AND x` / `OR x` without markers, with their layout -/
+def opItems (ops : List (BinOp × Opd × Nat × Nat)) : List PItem :=
+  ops.map fun x => ⟨some x.1, none, x.2.1, x.2.2.1, x.2.2.2⟩
+
 /-- a word as an operand -/
 def wordOpd (w : Str) : Opd := ⟨w, leafOf w, 1⟩
 
